@@ -3,7 +3,8 @@
 package rhp
 
 // WP-P (C12): the price table an RHP3 RPC is validated against is one the host registered and that
-// is still in force.  Drives the real priceTableManager (rhp/v3/pricetable.go).  The manager reads
+// is still in force.  Drives the real priceTableManager (rhp/v3/pricetable.go, with the fix that makes
+// Get compare the table's own expiry: the map's values are registeredPriceTable{pt, expiry}).  The manager reads
 // the clock through time.Now/time.Until and owns a *time.Timer: there is no seam for a virtual
 // clock, so the cases run in real time with short validities, under the timing rule of DESIGN §7:
 //
@@ -12,8 +13,11 @@ package rhp
 //     before and after each of its own operations; a change it did not make itself is a run of the
 //     timer function and is recorded as `Tick now`, `now` being the latest expiry that was removed
 //     (the model then says exactly which prefix a run at that instant removes);
-//   - monitors that judge time wait for a predicted event ("the table is gone") with a long
-//     deadline: the grace period is 20x the validity, at least 1.5 s (at most 3 s).
+//   - whether a served table had expired needs no tolerance: the harness reads its clock before it
+//     calls Get and Get reads the clock after that, so a table served when the harness's reading
+//     was already at or past the expiry was served expired;
+//   - monitors that judge how long the manager HOLDS a table (memory) wait for a predicted event
+//     ("the table is gone") with a long deadline: 20x the validity, at least 1.5 s (at most 3 s).
 //
 // Case 0 is the seeded scenario (C12-mut7) through real RPCs on a host node: register a table, lower
 // MaxCollateral, other renters keep registering, renew under the old table after its expiry.
@@ -51,11 +55,17 @@ type c12ptEntry struct {
 	exp int64 // expiry, ns since the case's origin
 }
 
+// a value of the manager's map: contents id and expiry (registeredPriceTable)
+type c12ptTab struct {
+	tid int
+	exp int64
+}
+
 type c12ptSnap struct {
 	before int64 // ns since origin, read before the manager's mutex was taken
 	after  int64 // ... and after it was released
 	list   []c12ptEntry
-	tabs   map[int]int // UID number -> table id
+	tabs   map[int]c12ptTab // UID number -> (table id, expiry)
 }
 
 // what the harness knows about one registration
@@ -93,7 +103,7 @@ type c12ptRec struct {
 func newC12ptRec(pm *priceTableManager, direct bool) *c12ptRec {
 	r := &c12ptRec{pm: pm, origin: time.Now(), direct: direct, uidNos: map[rhp3.SettingsID]int{},
 		byUID: map[int]*c12ptReg{}, tidUID: map[rhp3.SettingsID]int{}, hitSeen: map[string]bool{}, counts: map[string]int{}}
-	r.prev = c12ptSnap{tabs: map[int]int{}}
+	r.prev = c12ptSnap{tabs: map[int]c12ptTab{}}
 	return r
 }
 
@@ -138,14 +148,14 @@ func c12ptGrace(validity int64) int64 {
 }
 
 func (r *c12ptRec) snapshot() c12ptSnap {
-	s := c12ptSnap{before: r.now(), tabs: map[int]int{}}
+	s := c12ptSnap{before: r.now(), tabs: map[int]c12ptTab{}}
 	r.pm.mu.RLock()
 	for e := r.pm.expirationList.Front(); e != nil; e = e.Next() {
 		ept := e.Value.(expiringPriceTable)
 		s.list = append(s.list, c12ptEntry{uid: r.uidNo(ept.uid), exp: int64(ept.expiry.Sub(r.origin))})
 	}
-	for uid, pt := range r.pm.priceTables {
-		s.tabs[r.uidNo(uid)] = r.tidOf(pt)
+	for uid, v := range r.pm.priceTables {
+		s.tabs[r.uidNo(uid)] = c12ptTab{tid: r.tidOf(v.pt), exp: int64(v.expiry.Sub(r.origin))}
 	}
 	r.pm.mu.RUnlock()
 	s.after = r.now()
@@ -153,7 +163,7 @@ func (r *c12ptRec) snapshot() c12ptSnap {
 	return s
 }
 
-func c12ptStateObs(list []c12ptEntry, tabs map[int]int) string {
+func c12ptStateObs(list []c12ptEntry, tabs map[int]c12ptTab) string {
 	if len(list) > 32 || len(tabs) > 32 {
 		fs, bs := "None", "None"
 		if len(list) > 0 {
@@ -173,7 +183,7 @@ func c12ptStateObs(list []c12ptEntry, tabs map[int]int) string {
 	sort.Ints(keys)
 	c12ms := make([]string, 0, len(keys))
 	for _, k := range keys {
-		c12ms = append(c12ms, fmt.Sprintf("(%d%%N, %d%%N)", k, tabs[k]))
+		c12ms = append(c12ms, fmt.Sprintf("(%d%%N, (%d%%N, %d%%N))", k, tabs[k].tid, tabs[k].exp))
 	}
 	return "OState [" + strings.Join(ls, "; ") + "] [" + strings.Join(c12ms, "; ") + "]"
 }
@@ -182,7 +192,7 @@ func c12ptStateObs(list []c12ptEntry, tabs map[int]int) string {
 // the case has its failing input: nothing more is recorded (the manager's list only grows from then
 // on, and with it every recorded state).
 func (r *c12ptRec) step(op, obs string) {
-	if r.hitSeen["price-table-never-expires"] || r.hitSeen["expired-price-table-served"] || r.frozen {
+	if r.hitSeen["expired-price-table-served"] || r.frozen {
 		return
 	}
 	r.steps = append(r.steps, [2]string{op, obs})
@@ -204,8 +214,8 @@ func c12ptSuffixAt(want, post []c12ptEntry) int {
 
 // without returns the state the removal of the entries [removed] leaves (what the timer function
 // does: delete(pm.priceTables, uid) for each)
-func c12ptWithout(list []c12ptEntry, tabs map[int]int, k int) ([]c12ptEntry, map[int]int) {
-	t := map[int]int{}
+func c12ptWithout(list []c12ptEntry, tabs map[int]c12ptTab, k int) ([]c12ptEntry, map[int]c12ptTab) {
+	t := map[int]c12ptTab{}
 	for u, v := range tabs {
 		t[u] = v
 	}
@@ -225,7 +235,7 @@ func c12ptMaxExp(es []c12ptEntry, lo int64) int64 {
 }
 
 // tick records a run of the timer function that removed [removed] and left (list, tabs)
-func (r *c12ptRec) tick(removed, list []c12ptEntry, tabs map[int]int) {
+func (r *c12ptRec) tick(removed, list []c12ptEntry, tabs map[int]c12ptTab) {
 	for _, e := range removed {
 		// r.seenAt: the look at the manager that found them gone had ended by then
 		if g := r.byUID[e.uid]; r.seenAt < e.exp && (g == nil || !g.dup) {
@@ -262,8 +272,13 @@ func (r *c12ptRec) checkSnap(s c12ptSnap) {
 			continue
 		}
 		if s.before > g.boundHi+c12ptGrace(g.validity) {
-			r.monitor("price-table-never-expires", fmt.Sprintf("table %d (validity %v, expiry at %v, latest expiry of the tables registered before it %v) is still held by the manager at %v: list %d entries, map %d entries",
-				g.tid, time.Duration(g.validity), time.Duration(g.expHi), time.Duration(g.boundHi), time.Duration(s.before), len(s.list), len(s.tabs)))
+			// since /repo's Get compares the table's own expiry, a table the manager still holds
+			// past its expiry is never served: memory only, not a violation of C12.  Counted, and
+			// the recording goes on (the model's Tick would have removed it: reported as a broken
+			// correspondence without a failing input if it happens)
+			r.count("held-past-expiry-plus-grace")
+			_ = fmt.Sprintf("table %d (validity %v, expiry at %v, latest expiry of the tables registered before it %v) is still held by the manager at %v: list %d entries, map %d entries",
+				g.tid, time.Duration(g.validity), time.Duration(g.expHi), time.Duration(g.boundHi), time.Duration(s.before), len(s.list), len(s.tabs))
 		}
 	}
 	if len(s.list) == 0 && len(s.tabs) != 0 || len(s.list) != 0 && len(s.tabs) == 0 {
@@ -295,7 +310,7 @@ func (r *c12ptRec) sync() c12ptSnap {
 	return s
 }
 
-func c12ptSameTabs(a, b map[int]int) bool {
+func c12ptSameTabs(a, b map[int]c12ptTab) bool {
 	if len(a) != len(b) {
 		return false
 	}
@@ -354,11 +369,11 @@ func (r *c12ptRec) register(validity time.Duration, pt rhp3.HostPriceTable, do f
 	op := fmt.Sprintf("Register %d%%N %d%%N %d%%N %d%%N", no, tid, rnow, int64(validity))
 	newEntry := c12ptEntry{uid: no, exp: g.expLo}
 	withNew := append(append([]c12ptEntry{}, r.prev.list...), newEntry)
-	tabsNew := map[int]int{}
+	tabsNew := map[int]c12ptTab{}
 	for u, v := range r.prev.tabs {
 		tabsNew[u] = v
 	}
-	tabsNew[no] = tid
+	tabsNew[no] = c12ptTab{tid: tid, exp: g.expLo}
 
 	k := -1
 	if present {
@@ -412,15 +427,20 @@ func (r *c12ptRec) get(uid rhp3.SettingsID) (rhp3.HostPriceTable, bool) {
 		obs = fmt.Sprintf("OGet (Some %d%%N)", r.tidOf(pt))
 	}
 	k := c12ptSuffixAt(r.prev.list, post.list)
+	held, stillThere := post.tabs[no]
 	getFirst := true
-	if k > 0 {
-		_, stillThere := post.tabs[no]
-		if !found && !stillThere {
-			getFirst = false // the timer function removed it before the lookup
-		}
+	if k > 0 && !found && !stillThere {
+		getFirst = false // the timer function removed it before the lookup
 	}
+	// The instant Get read the clock lies between the harness's readings t0 and t1.  A table that
+	// was refused although the map (still) holds it had expired by then: the recorded instant is
+	// not before its expiry.  A table that was served had not: max(t0, last) is before its expiry
+	// whenever the code is right (both are instants that had passed when Get read the clock).
 	emitGet := func() {
 		r.last = max(r.last, t0)
+		if !found && stillThere {
+			r.last = max(r.last, held.exp)
+		}
 		r.step(fmt.Sprintf("Get %d%%N %d%%N", no, r.last), obs)
 	}
 	switch {
@@ -457,16 +477,13 @@ func (r *c12ptRec) get(uid rhp3.SettingsID) (rhp3.HostPriceTable, bool) {
 		if r.tidOf(pt) != g.tid || (r.direct && pt != g.pt) {
 			r.monitor("served-price-table-differs-from-registered", fmt.Sprintf("UID %d: registered table %d, served table %d", no, g.tid, r.tidOf(pt)))
 		}
-		grace := c12ptGrace(g.validity)
 		switch {
-		case t0 > g.boundHi+grace:
-			r.monitor("expired-price-table-served", fmt.Sprintf("table %d (validity %v, expired at %v; latest expiry of the tables registered before it %v) was served at %v, %v after its expiry",
-				g.tid, time.Duration(g.validity), time.Duration(g.expHi), time.Duration(g.boundHi), time.Duration(t0), time.Duration(t0-g.expHi)))
-		case t0 > g.expHi+grace:
+		case t0 >= g.expHi && t0 < g.boundHi:
 			r.monitor("price-table-outlives-own-validity", fmt.Sprintf("table %d (validity %v, expired at %v) was served at %v, %v after its expiry: it sits behind a table registered earlier with a longer validity (expiring at %v) in the expiration list",
 				g.tid, time.Duration(g.validity), time.Duration(g.expHi), time.Duration(t0), time.Duration(t0-g.expHi), time.Duration(g.boundHi)))
-		case t0 > g.expHi:
-			r.count("get:served-after-expiry-within-grace")
+		case t0 >= g.expHi:
+			r.monitor("expired-price-table-served", fmt.Sprintf("table %d (validity %v, expired at %v) was served at %v, %v after its expiry",
+				g.tid, time.Duration(g.validity), time.Duration(g.expHi), time.Duration(t0), time.Duration(t0-g.expHi)))
 		default:
 			r.count("get:served-in-force")
 		}
@@ -474,7 +491,11 @@ func (r *c12ptRec) get(uid rhp3.SettingsID) (rhp3.HostPriceTable, bool) {
 		if t1 < g.expLo {
 			r.monitor("registered-price-table-not-served", fmt.Sprintf("table %d (validity %v, expiring at %v) was refused at %v", g.tid, time.Duration(g.validity), time.Duration(g.expLo), time.Duration(t1)))
 		}
-		r.count("get:refused-after-expiry")
+		if stillThere {
+			r.count("get:refused-after-expiry-while-still-held")
+		} else {
+			r.count("get:refused-after-expiry")
+		}
 	}
 	return pt, found
 }
